@@ -41,6 +41,7 @@ vmod!(wide, "c22_wide.rs");
 vmod!(storage_reads, "c36_storage.rs");
 vmod!(ret, "c34_ret.rs");
 vmod!(misc, "c29_misc.rs");
+vmod!(slots, "c33_storage_slots.rs");
 
 /// Counterexample replay (lib/replay.py): generated concrete-playback tests.
 #[cfg(verif_playback)]
